@@ -391,6 +391,28 @@ def run(ctx):
                      "seeded interleavings of every atomic access: the sequence of accesses to my_max_height and to every next(level) pointer (kind, observed value, written value, CAS outcome), "
                      "the results and the final chain of every level equal SkipModel's run under the same order of threads")
     run_skipgate(ctx, exe, gen_skipgate(ctx, ctx.scale(400, 12000)))
+    # multiset: index numbers decide the order of equivalent keys on every level; directed: the level-0 predecessor chain is 65 534 / 70 000 nodes long when two equal keys race
+    mcases = []
+    for N in ([65534] if ctx.quick() else [65534, 65533, 65535, 70000, 131070]):
+        for a in range(2, ctx.scale(60, 90), ctx.scale(3, 1)):
+            mcases.append([-N, 2, 10 ** 9, 2, 10 ** 9, 2, 0, 2, 1, 1, 10 ** 9, N + 1, 1, 1, 10 ** 9, N + 2, -1] + [0] * a + [1] * 300 + [0] * 300)
+
+    def multi_oracle(c, toks):
+        sched = c[c.index(-1, 1) + 1:]
+        a = next((i for i, x in enumerate(sched) if x != 0), len(sched))
+        d0 = "concurrent_skip_list<long> as a MULTISET: %d ascending keys pre-inserted (the last node's index number is %d), then two threads insert the same key with nodes of height 2; thread 0 runs %d accesses, then thread 1 completes, then thread 0" % (
+            -c[0], -c[0], a)
+        if not toks or toks[-1] == "HANG" or toks[0].startswith("CRASH") or "-10" not in toks:
+            return ("skip-multiset-hang-or-crash", d0 + ": " + " ".join(toks[-6:]))
+        k = toks.index("-10")
+        levelbad, sortbad, count = int(toks[k + 1]), int(toks[k + 2]), int(toks[k + 3])
+        if levelbad or sortbad or count != -c[0] + 2:
+            return ("skip-multiset-level-order", "%s: %d level chain(s) are not the level-0 order restricted to the nodes of that height (equivalent keys in different order on different levels), %d unsorted pairs, %d elements (expected %d)" % (
+                d0, levelbad, sortbad, count, -c[0] + 2))
+        return None
+    ctx.rules.append("skip-multiset (oracle only): the real skip list as a multiset, 65 534+ ascending keys pre-inserted so that index numbers pass 2^16, two equal keys of height 2 inserted concurrently under the gate with the "
+                     "second thread completing inside every window of the first: every level's chain is the level-0 order restricted to the nodes of that height")
+    oracle_tie(ctx, "skip-multiset", exe, ["skipgatem"], mcases, multi_oracle, bucket=lambda c: "skip-multiset N=%d" % -c[0], timeout=1200)
     ctx.rules.append("assoc-gate (oracle only): 2-3 logical threads x 1-5 insert/count/traverse on the four real containers under seeded interleavings of every atomic access; "
                      "oracle = one winner per key, contents = union of successful inserts, count/traversal bounded by completed-before and started-before inserts, ordered iteration")
     oracle_tie(ctx, "assoc-gate", exe, ["gate"], gen_gate(ctx, ctx.scale(1500, 40000)), gate_oracle, describe=gdescribe,
